@@ -475,3 +475,80 @@ def mutate_text(text, rng):
     else:
         toks.insert(i, rng.choice([" ", "\n", "/* c */", "// c\n", "x", "1"]))
     return "".join(toks)
+
+
+# ---------------------------------------------------------------------- construct catalogue
+
+def catalog():
+    """Every supported declarator form x bound kind x position, each in a small specification of its own
+    (so that no run depends on the random mixes for covering a construct).  Returns list of (tag, items)."""
+    out = []
+    forms = [("plain", None), ("fixN", ["fixed", "3"]), ("fixC", ["fixed", "K"]), ("var", ["var", ""]), ("varN", ["var", "2"]), ("varC", ["var", "K"])]
+    base_items = [
+        {"k": "const", "name": "K", "val": "3"},
+        {"k": "enum", "name": "color", "members": [["RED", "0"], ["GREEN", "5"], ["BLUE", "0x7fffffff"]]},
+        {"k": "struct", "name": "inner", "fields": [{"ty": "int", "name": "a", "arr": None, "opt": False}, {"ty": "opaque", "name": "blob", "arr": ["var", ""], "opt": False}]},
+        {"k": "union", "name": "sel", "swty": "int", "swvar": "d", "arms": [{"labels": ["1"], "body": {"ty": "string", "name": "s", "arr": None}},
+                                                                            {"labels": ["2", "3"], "body": "void"}, {"default": True, "labels": [], "body": {"ty": "hyper", "name": "h", "arr": None}}]},
+    ]
+
+    def spec(tag, extra):
+        out.append((tag, [dict(x) for x in base_items] + extra))
+
+    for base in ("opaque", "string", "inner", "color", "sel", "unsigned int", "double"):
+        for fname, arr in forms:
+            # struct field
+            if base == "opaque" and fname == "plain":
+                continue                                   # bracket-less opaque: finding K1, exercised separately
+            if base == "string" and fname in ("fixN", "fixC"):
+                continue                                   # fixed-length string: out of subset (panics)
+            if base in ("unsigned int", "double") and fname in ("var", "varN", "varC"):
+                continue                                   # counted arrays of primitives: out of subset (orphan rule)
+            if base == "string" and fname in ("var", "varN", "varC", "plain"):
+                pass
+            spec("field:%s:%s" % (base, fname), [{"k": "struct", "name": "holder", "fields": [
+                {"ty": "int", "name": "head", "arr": None, "opt": False}, {"ty": base, "name": "f", "arr": arr, "opt": False},
+                {"ty": "unsigned int", "name": "tail", "arr": None, "opt": False}]}])
+            # typedef, used plain / in a counted array / optional / union arm
+            if base == "string":
+                continue                                   # typedef of string: out of subset
+            if base in ("unsigned int", "double") and fname != "plain":
+                continue
+            spec("typedef:%s:%s" % (base, fname), [
+                {"k": "typedef", "ty": base, "name": "alias", "arr": arr},
+                {"k": "typedef", "ty": "alias", "name": "alias2", "arr": None},
+                {"k": "struct", "name": "holder", "fields": [
+                    {"ty": "alias", "name": "x", "arr": None, "opt": False}, {"ty": "alias", "name": "ys", "arr": ["var", "2"], "opt": False},
+                    {"ty": "alias", "name": "zs", "arr": ["fixed", "2"], "opt": False}, {"ty": "alias2", "name": "w", "arr": None, "opt": False},
+                    {"ty": "alias", "name": "o", "arr": None, "opt": True}]},
+                {"k": "union", "name": "arms", "swty": "color", "swvar": "c", "arms": [
+                    {"labels": ["RED"], "body": {"ty": "alias", "name": "x", "arr": None}}, {"labels": ["GREEN"], "body": "void"},
+                    {"default": True, "labels": [], "body": {"ty": "alias2", "name": "y", "arr": None}}]}])
+    # unions: every switch kind, label kind, fall-through shape, default kind
+    spec("union:bool", [{"k": "union", "name": "ub", "swty": "bool", "swvar": "b", "arms": [{"labels": ["TRUE"], "body": {"ty": "inner", "name": "x", "arr": None}}, {"labels": ["FALSE"], "body": "void"}]},
+                        {"k": "union", "name": "ub2", "swty": "bool", "swvar": "b", "arms": [{"labels": ["TRUE"], "body": "void"}, {"labels": ["FALSE"], "body": "void"}]},
+                        {"k": "union", "name": "ub3", "swty": "bool", "swvar": "b", "arms": [{"labels": ["FALSE"], "body": "void"}]},
+                        {"k": "union", "name": "ub4", "swty": "bool", "swvar": "b", "arms": [{"labels": ["TRUE"], "body": "void"}, {"default": True, "labels": [], "body": {"ty": "unsigned int", "name": "v2", "arr": None}}]}])
+    spec("union:labels", [{"k": "const", "name": "L9", "val": "9"}, {"k": "const", "name": "HX", "val": "0x10"},
+                          {"k": "typedef", "ty": "unsigned int", "name": "uint", "arr": None},
+                          {"k": "union", "name": "u1", "swty": "unsigned int", "swvar": "type", "arms": [
+                              {"labels": ["0", "L9"], "body": None}, {"labels": ["GREEN"], "body": {"ty": "int", "name": "a", "arr": None}},
+                              {"labels": ["HX"], "body": "void"}, {"labels": ["4"], "body": None}, {"labels": ["7"], "body": "void"},
+                              {"labels": ["BLUE"], "body": {"ty": "inner", "name": "b", "arr": None}}]},
+                          {"k": "union", "name": "u2", "swty": "uint", "swvar": "disc", "arms": [
+                              {"labels": ["1"], "body": {"ty": "sel", "name": "a", "arr": None}}, {"labels": ["2"], "body": None},
+                              {"default": True, "labels": [], "body": "void"}]},
+                          {"k": "union", "name": "u3", "swty": "int", "swvar": "disc", "arms": [
+                              {"labels": ["1"], "body": {"ty": "color", "name": "a", "arr": None}}, {"labels": ["2"], "body": None},
+                              {"default": True, "labels": [], "body": {"ty": "uint", "name": "dflt", "arr": None}}]},
+                          {"k": "union", "name": "u4", "swty": "color", "swvar": "disc", "arms": [
+                              {"labels": ["RED"], "body": None}, {"labels": ["BLUE"], "body": {"ty": "double", "name": "a", "arr": None}}]}])
+    spec("recursive", [{"k": "struct", "name": "node", "fields": [{"ty": "unsigned int", "name": "v", "arr": None, "opt": False}, {"ty": "node", "name": "next", "arr": None, "opt": True}]},
+                       {"k": "struct", "name": "tree", "fields": [{"ty": "inner", "name": "label", "arr": None, "opt": False}, {"ty": "tree", "name": "kids", "arr": ["var", "K"], "opt": False}]},
+                       {"k": "union", "name": "expr", "swty": "int", "swvar": "kind", "arms": [{"labels": ["0"], "body": {"ty": "int", "name": "lit", "arr": None}},
+                                                                                            {"labels": ["1"], "body": {"ty": "pair", "name": "add", "arr": None}}]},
+                       {"k": "struct", "name": "pair", "fields": [{"ty": "expr", "name": "l", "arr": None, "opt": True}, {"ty": "expr", "name": "r", "arr": ["var", "1"], "opt": False}]}])
+    spec("prims", [{"k": "struct", "name": "allprims", "fields": [
+        {"ty": t, "name": "f%d" % i, "arr": None, "opt": False} for i, t in enumerate(
+            ["unsigned int", "uint32_t", "u32", "unsigned", "int", "int32_t", "i32", "unsigned hyper", "uint64_t", "u64", "hyper", "int64_t", "i64", "float", "double", "bool", "string"])]}])
+    return out
